@@ -51,7 +51,8 @@ class CallMixin:
                 outs.append((s, fv))
                 continue
             # mutating container methods need the receiver as an lvalue
-            if isinstance(fv, FuncVal) and fv.kind == 'builtin' and fv.qual.startswith('method.') and isinstance(e.func, ast.Attribute):
+            if isinstance(fv, FuncVal) and fv.kind == 'builtin' and fv.qual.startswith('method.') and isinstance(e.func, ast.Attribute) \
+                    and fv.qual.split('.', 1)[1] in self.MUTATORS:
                 outs += self.call_container_method(e, s, fr, fv)
                 continue
             arg_exprs = list(e.args)
@@ -318,7 +319,7 @@ class CallMixin:
             if 'return' in c.types:
                 rk = self.reg.kind(c.types['return'])
                 res = fresh_val(rk, 'ret_' + short.replace('.', '_'))
-                st.assume(*self.type_facts(res, rk, st))
+                self.tf_assume(st, self.type_facts(res, rk, st))
             sf3 = self.spec_frame(fv.module, c.qual, fv.cls, env, old=(pre_heap, env), result=res)
             for text in c.ensures:
                 st.assume(asz(truthy(self.ev1(self.parse_spec(text), st, sf3))))
@@ -445,9 +446,11 @@ class CallMixin:
             clo.update({k: v for k, v in env.items()})
         fr.closure = clo
         st.env = {k: v for k, v in saved_e.items() if k not in (env or {})}
+        self.in_old += 1
         try:
             return self.ev1(node, st, fr)
         finally:
+            self.in_old -= 1
             st.heap, fr.closure, st.env = saved_h, saved_c, saved_e
 
     def spec_old(self, e, st, fr):
@@ -485,11 +488,13 @@ class CallMixin:
             fr.bound[p.arg] = v
             if not isinstance(k, KRef):
                 facts += self.type_facts(v, k, st)
+        b = self.push_binder(bvs)
         try:
             body = asz(truthy(self.ev1(lam.body, st, fr)))
+            self.flush_axioms(st)
         finally:
             fr.bound = saved
-        self.flush_axioms(st)
+            self.close_binder(st, b)
         if facts:
             body = z3.Implies(z3.And(*facts), body) if is_forall else z3.And(z3.And(*facts), body)
         return SB(z3.ForAll(bvs, body) if is_forall else z3.Exists(bvs, body))
@@ -500,31 +505,75 @@ class CallMixin:
     def spec_exists(self, e, st, fr):
         return self.quant(e, st, fr, False)
 
-    def spec_sum_range(self, e, st, fr):
-        """sum_range(lambda j: expr, n[, 'Real'|'Int']) = sum_{0<=j<n} expr(j), as a recursive function."""
+    def range_fold(self, e, st, fr, mode):
+        """sum_range / any_range / all_range(lambda j, p1.., pk: body, n, a1.., ak): a recursive
+        function of n with explicit parameters p (any kinds, flattened) bound to the arguments a,
+        plus implicit parameters for enclosing quantified variables occurring in the body."""
         lam = e.args[0]
         n = lift(self.ev1(e.args[1], st, fr), KInt).z
+        extra_args = [self.ev1(a, st, fr) for a in e.args[2:]]
+        pnames = [a.arg for a in lam.args.args]
+        if len(pnames) != 1 + len(extra_args):
+            raise CheckerError('range fold: lambda takes %d params, %d args given' % (len(pnames), 1 + len(extra_args)))
         j = z3.Int(fresh_name('sj'))
         saved = fr.bound
         fr.bound = dict(fr.bound)
-        fr.bound[lam.args.args[0].arg] = SI(j)
+        fr.bound[pnames[0]] = SI(j)
+        formal_leaves = []
+        actual_leaves = []
+        for pn, av in zip(pnames[1:], extra_args):
+            if isinstance(av, TupleVal):
+                av = ops.pack_tuple(av.items)
+            av = lift(av)
+            fv_ = fresh_val(av.kind, 'fp_' + pn)
+            fr.bound[pn] = fv_
+            formal_leaves += list(fv_.t)
+            actual_leaves += list(av.t)
+        scope = self.scope_vars()
+        b = self.push_binder([j] + formal_leaves)
         try:
             body = self.ev1(lam.body, st, fr)
+            self.flush_axioms(st)
         finally:
             fr.bound = saved
+            self.pop_binder(b)      # typing facts of fold bodies are dropped (body is total)
+        if mode != 'sum':
+            body = SB(asz(truthy(body)))
         body = lift(body)
         sort = body.z.sort()
-        # canonical key: body with the bound variable replaced by a fixed constant
-        canon = z3.Const('$sumvar', I)
-        cb = z3.substitute(body.z, (j, canon))
-        key = cb.get_id()
+        used = set(v.get_id() for v in z3.z3util.get_vars(body.z))
+        implicit = [v for v in scope if v.get_id() in used]
+        allp = [j] + formal_leaves + implicit
+        canon = [z3.Const('$rv%d_%s' % (i, str(v.sort()).replace(' ', '')), v.sort()) for i, v in enumerate(allp)]
+        cb = z3.substitute(body.z, *zip(allp, canon))
+        key = (mode, cb.get_id())
         if key not in self.recfuncs:
-            F = z3.RecFunction(fresh_name('Sum'), I, sort)
-            zero = z3.IntVal(0) if sort == I else z3.RealVal(0)
-            z3.RecAddDefinition(F, [canon], z3.If(canon <= 0, zero, F(canon - 1) + z3.substitute(cb, (canon, canon - 1))))
-            self.recfuncs[key] = (F, cb)
-        F = self.recfuncs[key][0]
-        return SVal(body.kind, [F(n)])
+            F = z3.RecFunction(fresh_name({'sum': 'Sum', 'any': 'Any', 'all': 'All'}[mode]),
+                               *([c.sort() for c in canon] + [sort]))
+            idx = canon[0]
+            prev = z3.substitute(cb, (idx, idx - 1))
+            rec = F(idx - 1, *canon[1:])
+            if mode == 'sum':
+                zero = z3.IntVal(0) if sort == I else z3.RealVal(0)
+                dfn = z3.If(idx <= 0, zero, rec + prev)
+            elif mode == 'any':
+                dfn = z3.And(idx > 0, z3.Or(prev, rec))
+            else:
+                dfn = z3.Or(idx <= 0, z3.And(prev, rec))
+            z3.RecAddDefinition(F, canon, dfn)
+            self.recfuncs[key] = F
+            self._keep = getattr(self, '_keep', []) + [cb]
+        F = self.recfuncs[key]
+        return SVal(body.kind, [F(n, *(actual_leaves + implicit))])
+
+    def spec_sum_range(self, e, st, fr):
+        return self.range_fold(e, st, fr, 'sum')
+
+    def spec_any_range(self, e, st, fr):
+        return self.range_fold(e, st, fr, 'any')
+
+    def spec_all_range(self, e, st, fr):
+        return self.range_fold(e, st, fr, 'all')
 
     def spec_ite(self, e, st, fr):
         c = truthy(self.ev1(e.args[0], st, fr))
